@@ -31,3 +31,15 @@ Theorem C14_accept_step_meaning : forall u P G x,
      exists f, first_choice (table_provider u) r = Some f /\ In f G /\
                forall s, In s G -> cand_of (table_provider u) r s -> s = f).
 Proof. exact soft_step_ok_spec. Qed.
+
+(* ---- conflict analysis never harms the solution found so far.  In the model
+   of Solver::analyze (Cdcl/Analyze.v) the backjump level is
+   target_level btl start = max (max btl 1) start, where start is the level on
+   top of which the run_sat of the soft requirement in progress started; every
+   analysis of every hook log must backjump exactly to the model's level
+   (Cdcl/AnalyzeRun.v).  Before fix 004c59a the implementation went to
+   max btl 1 (corpus/C14/F14_*.json). ---- *)
+From Resolvo Require Import Cdcl.AnalyzeRunProofs.
+
+Theorem C14_analysis_keeps_earlier_solution : forall btl start, (start <= target_level btl start)%N.
+Proof. exact target_level_ge_start. Qed.
